@@ -171,6 +171,10 @@ func (pd *perRawBitData) appendBitString(bytes []byte, bitsLength uint64, extens
 
 	if ub > 65535 {
 		// X.691 11.9.3.5: with an upper bound of 64K or more the length itself is encoded, not length - lb
+		if bitsLength < uint64(lb) {
+			err = fmt.Errorf("bitString Length is under lowerbound")
+			return
+		}
 		sizeRange = -1
 		lb = 0
 	}
@@ -268,6 +272,10 @@ func (pd *perRawBitData) appendOctetString(bytes []byte, extensive bool, lowerBo
 
 	if ub > 65535 {
 		// X.691 11.9.3.5: with an upper bound of 64K or more the length itself is encoded, not length - lb
+		if byteLen < uint64(lb) {
+			err := fmt.Errorf("OctetString Length is under lowerbound")
+			return err
+		}
 		sizeRange = -1
 		lb = 0
 	}
